@@ -10,6 +10,7 @@ type builder struct {
 	doc             *XMLDoc
 	dict            *DataDictionary
 	componentByName map[string]*XMLComponent
+	inProgress      map[string]bool
 }
 
 func (b *builder) build(doc *XMLDoc) (*DataDictionary, error) {
@@ -29,6 +30,7 @@ func (b *builder) build(doc *XMLDoc) (*DataDictionary, error) {
 		return nil, errors.New("minor attribute not valid on <fix>")
 	}
 
+	b.inProgress = make(map[string]bool)
 	b.componentByName = make(map[string]*XMLComponent)
 	for _, c := range doc.Components {
 		b.componentByName[c.Name] = c
@@ -70,6 +72,12 @@ func (b builder) findOrBuildComponentType(xmlMember *XMLComponentMember) (*Compo
 	if xmlComp, ok = b.componentByName[xmlMember.Name]; !ok {
 		return nil, newUnknownComponent(xmlMember.Name)
 	}
+
+	if b.inProgress[xmlMember.Name] {
+		return nil, fmt.Errorf("component %v refers to itself", xmlMember.Name)
+	}
+	b.inProgress[xmlMember.Name] = true
+	defer delete(b.inProgress, xmlMember.Name)
 
 	var comp *ComponentType
 	var err error
